@@ -130,8 +130,27 @@ fn is_stream_err(e: &DecodeError) -> Option<usize> {
 }
 
 /// Replays `h` on a fresh real decoder over `buf`, comparing every step with the model.
+/// a string for messages: quoted, long ones abbreviated to their length
+fn short_str(s: &str) -> String {
+    if s.len() <= 48 {
+        format!("{:?}", s)
+    } else {
+        format!("<string of {} bytes>", s.len())
+    }
+}
+
+/// the buffer as text: hex, abbreviated for large buffers (the scale sweep names its buffers instead)
+fn buf_text(buf: &[u8]) -> String {
+    if buf.len() <= 256 {
+        hex(buf)
+    } else {
+        format!("{}..({} bytes)", hex(&buf[..16]), buf.len())
+    }
+}
+
 pub fn run_hist(buf: &[u8], h: &[Req]) -> Step {
     let g = golden();
+    let hex = |b: &[u8]| buf_text(b);
     let key_of = |what: &str| format!("C11:{}:{}", hex(buf), what);
     let mut outcomes: Vec<String> = vec![];
     let res = guarded(|| -> (Option<String>, Model) {
@@ -356,7 +375,7 @@ pub fn run_hist(buf: &[u8], h: &[Req]) -> Step {
                         Ok(s) => {
                             let now = d.offset();
                             if now > buf.len() {
-                                fail!("step {} string: returned Ok({:?}) and advanced the offset to {} beyond the buffer length {}", i, s, now, buf.len());
+                                fail!("step {} string: returned Ok({}) and advanced the offset to {} beyond the buffer length {}", i, short_str(&s), now, buf.len());
                             }
                             if now < off0 || (now - off0) % 4 != 0 {
                                 fail!("step {} string: offset moved from {} to {}", i, off0, now);
@@ -366,14 +385,14 @@ pub fn run_hist(buf: &[u8], h: &[Req]) -> Step {
                                 fail!("step {} string: consumed {} words, the limit allows {}", i, k, budget);
                             }
                             if !preds.iter().any(|p| p.as_ref() == Some(&(s.clone(), k))) {
-                                fail!("step {} string: returned Ok({:?}) consuming {} words at offset {}; the reference model (NUL-terminated UTF-8 inside buffer and limit, whole words) gives {:?}", i, s, k, off0, preds);
+                                fail!("step {} string: returned Ok({}) consuming {} words at offset {}; the reference model (NUL-terminated UTF-8 inside buffer and limit, whole words) gives {:?}", i, short_str(&s), k, off0, preds.iter().map(|p| p.as_ref().map(|(t, n)| (short_str(t), *n))).collect::<Vec<_>>());
                             }
                             consume(&mut m, k);
                             outcomes.push(if k > 1 { "string_ok_multiword".into() } else { "string_ok".into() });
                         }
                         Err(e) => {
                             if preds.iter().all(|p| p.is_some()) {
-                                fail!("step {} string: failed with {:?} although a NUL-terminated UTF-8 string {:?} lies inside buffer and limit", i, e, preds[0]);
+                                fail!("step {} string: failed with {:?} although a NUL-terminated UTF-8 string {:?} lies inside buffer and limit", i, e, preds[0].as_ref().map(|(t, n)| (short_str(t), *n)));
                             }
                             let now = d.offset();
                             if now < off0 || (now - off0) % 4 != 0 || now > buf.len() {
@@ -528,6 +547,16 @@ pub fn run(tier: Tier) -> Run {
         }
     }
     run.merge_outcomes(&oc);
+    // U-scale: large buffers (strings and word runs around 2^16 words / 2^16, 2^18, 2^24 bytes)
+    let (scale_n, scale_v) = crate::checks::c11_scale::run(tier);
+    for v in scale_v {
+        let mut v2 = v.clone();
+        v2.key = format!("{}:scale", root_key(&v));
+        run.add(v2);
+    }
+    run.outcome("histories_on_large_buffers", scale_n);
+    hists += scale_n;
+    trans += scale_n;
     run.set("states", json!(states));
     run.set("transitions", json!(trans));
     run.set("traces_validated_against_impl", json!(hists));
